@@ -98,7 +98,31 @@ fn decode(src: &mut Source) -> Case {
             updates: src.vec(2, |s| s.int_in(0, 9)),
         })
         .collect();
+    // about one case in fifty has a large route table: 256-300 filler routes (patterns no generated name starts
+    // with) are put in front of the first router's own routes, so that those sit at positions beyond 255
+    let mut tree = tree;
+    if src.below(50) == 49 {
+        let n = 256 + src.below(45);
+        inflate(&mut tree, n, next_leaf + 10_000);
+    }
     Case { tree, pushes, ops }
+}
+
+fn inflate(node: &mut Node, n: usize, first_leaf: u32) -> bool {
+    match node {
+        Node::Leaf(_) => false,
+        Node::Prefix(_, inner) | Node::Filter { inner, .. } => inflate(inner, n, first_leaf),
+        Node::Router { routes, default } => {
+            if routes.is_empty() {
+                return inflate(default, n, first_leaf);
+            }
+            let mut filler: Vec<(u8, String, Node)> = (0..n).map(|i| (0u8, format!("big-table-{}.", i), Node::Leaf(first_leaf + i as u32))).collect();
+            filler.append(routes);
+            *routes = filler;
+            true
+        }
+        Node::Fanout(nodes) => nodes.iter_mut().any(|x| inflate(x, n, first_leaf)),
+    }
 }
 
 type Boxed = Box<dyn Recorder + Sync>;
